@@ -150,7 +150,9 @@ Section Families.
     {| c_maxt := v; c_dist := c_dist c; c_stale := negb (cell_updateable c) |}.
 
   (** Distribution.set_params: [inl c'] = ValueError raised, c' is the object
-      afterwards (old keywords restored); [inr (c', rest)] = success *)
+      afterwards (old keywords restored: [keywords.update(old_kwargs)], same keys
+      hence same order); [inr (c', rest)] = success.  [c_stale] only matters for
+      frozen cells and is carried along. *)
   Definition cell_set_params (c : cell) (args : list (option Qc)) (kwargs : list (string * Qc))
     : cell + (cell * list (option Qc)) :=
     match c_dist c with
@@ -158,8 +160,8 @@ Section Families.
     | Param f kw =>
         let '(kw', rest) := set_kw kw args kwargs in
         match W f (c_maxt c) kw' with
-        | None => inl {| c_maxt := c_maxt c; c_dist := Param f kw; c_stale := false |}
-        | Some _ => inr ({| c_maxt := c_maxt c; c_dist := Param f kw'; c_stale := false |}, rest)
+        | None => inl c
+        | Some _ => inr ({| c_maxt := c_maxt c; c_dist := Param f kw'; c_stale := c_stale c |}, rest)
         end
     end.
 
